@@ -1289,6 +1289,15 @@ func (m *metadataAPI) ChangeLeader(streamName, leader string, partitionID int32,
 		return errors.Wrap(err, "failed to change partition leader")
 	}
 
+	// Reports about the previous leader, including any that arrived while the
+	// change was in flight, don't count against the new one.
+	m.mu.Lock()
+	if failover, ok := m.partitionFailovers[partition]; ok {
+		failover.cancel()
+		delete(m.partitionFailovers, partition)
+	}
+	m.mu.Unlock()
+
 	partition.SetEpoch(epoch)
 
 	// Update broker load counts.
